@@ -291,11 +291,50 @@ namespace sim
 
    namespace
    {
-      void split( const std::string& check, std::vector< Violation >& all, Verdict& v )
+      // An oracle of another property is only meaningful in configurations it was written for; elsewhere it is
+      // not counted at all (its "violations" would say nothing about the code):
+      //  - tree jobs: parse_tree::make_control replaces the hooks of the recording control, and parse_tree::parse
+      //    has its own top-level protocol -> only C12 oracles;
+      //  - must_if program: a rule that raises on failure never reaches the base control's failure hook (the
+      //    must_if control saw the failure and chose to raise) -> no C08 oracles;
+      //  - I/O jobs with an I/O fault plan: the exception at the caller comes from the environment -> no C05 oracles.
+      bool foreign_applicable( const Job& j, const std::string& oracle )
       {
+         if( j.mode == MODE_TREE ) {
+            return false;
+         }
+         const bool c08 = oracle.compare( 0, 4, "C08." ) == 0;
+         const bool c05 = oracle.compare( 0, 4, "C05." ) == 0;
+         if( j.mode == MODE_IO ) {
+            if( c08 && j.c.prog == IO_PROG_MUSTIF ) {
+               return false;
+            }
+            if( c05 ) {
+               const int cls = int( j.set );
+               if( j.c.short_by != 0 || cls == IO_CSTREAM || cls == IO_ISTREAM || ( cls >= IO_BUF_CR && cls <= IO_BUF_LF ) ) {
+                  return false;  // (stream classes: std::overflow_error from a small buffer is the environment's, too)
+               }
+               for( const FaultOp& f : j.c.faults ) {
+                  if( f.site == SITE_READER || f.site == SITE_SYSCALL ) {
+                     return false;
+                  }
+               }
+            }
+         }
+         return true;
+      }
+
+      void split( const Job& j, std::vector< Violation >& all, Verdict& v )
+      {
+         const std::string& check = j.check;
          for( auto& x : all ) {
             const bool own = ( x.oracle.compare( 0, check.size() + 1, check + "." ) == 0 ) || x.oracle == "HARNESS";
-            ( own ? v.own : v.foreign ).push_back( std::move( x ) );
+            if( own ) {
+               v.own.push_back( std::move( x ) );
+            }
+            else if( foreign_applicable( j, x.oracle ) ) {
+               v.foreign.push_back( std::move( x ) );
+            }
          }
          all.clear();
       }
@@ -429,7 +468,7 @@ namespace sim
             break;
          }
       }
-      split( j.check, all, v );
+      split( j, all, v );
       return v;
    }
 
